@@ -71,7 +71,7 @@ class Verdict:
     clean exception or exact survival), 'either' (statement silent: same two outcomes, counted apart),
     'skip' (packed size above PACK_CAP)."""
 
-    __slots__ = ("cls", "stage", "reason", "packed_limit", "ba_vs_packed", "inputs")
+    __slots__ = ("cls", "stage", "reason", "packed_limit", "ba_vs_packed", "inputs", "pp")
 
     def __init__(self):
         self.cls = "accept"
@@ -79,6 +79,7 @@ class Verdict:
         self.reason = None
         self.packed_limit = False  # some packed element equals a limit value (multi-element value)
         self.ba_vs_packed = None  # relation of an explicit ByteArray type to the packed type before it
+        self.pp = False  # a packing stage directly follows a packing stage that emitted a limit value
         self.inputs = []  # per stage: (ideal input values, numpy dtype name of the array that carries them)
 
     def problem(self, stage, reason):
@@ -163,6 +164,8 @@ def int_chain(vals, tc, chain, allow_big=False, np_range=None, np_name=None):
                     out.append(1)
             cur, tc, np_range, np_name = out, 3, RANGES[3], "int32"
         elif kind == "P":
+            if last_kind == "P" and v.packed_limit:
+                v.pp = True
             if not cur and p.get("is_unsigned") is None:
                 v.either("IntegerPacking", "empty")
             if p.get("src_size") is not None and p["src_size"] != len(cur):
